@@ -19,7 +19,9 @@ theorem runStep_world (root : List Str) (r : Run) (m : Mut) (h : m.touchesWorld 
   unfold runStep
   split
   · rfl
-  · simp [stepWorld_id m _ h]
+  · split
+    · rfl
+    · simp [stepWorld_id m _ h]
 
 theorem runMuts_world (root : List Str) (ms : List Mut) : ∀ (r : Run), (∀ m ∈ ms, m.touchesWorld = false) →
     (runMuts root ms r).world = r.world := by
@@ -105,7 +107,7 @@ theorem exec_world (root : List Str) (c : Ctx) (ms : List Mut) (p : ShellPart) (
 /-- no subshell context abandons the parent's line; a stage that ends in a Rust `Err` fails alone -/
 theorem exec_aborted (root : List Str) (c : Ctx) (ms : List Mut) (p : ShellPart) (w : World)
     (hc : c ≠ .pl) : (exec root c ms p w).aborted = false := by
-  cases c <;> simp_all [exec, execWith]
+  cases c <;> simp_all [exec, execWith, waitResult]
 
 /-- in `m1 | … | { mk; }` the line is abandoned only by an `exit` that the parent itself runs -/
 theorem pl_aborted (root : List Str) (init : List Mut) (l : Mut) (p : ShellPart) (w : World) :
@@ -137,6 +139,12 @@ theorem exec_stages (root : List Str) (ms : List Mut) (p : ShellPart) (w : World
     (exec root .stages ms p w).shell = p ∧ (exec root .stages ms p w).status = 0 ∧
     (exec root .stages ms p w).out = [] ∧ (exec root .stages ms p w).aborted = false := by
   simp [exec, execWith, prepare, runStages_shell]
+
+/-- a background job collected by any `wait`: the parent keeps its value, gets status 0, goes on -/
+theorem exec_bgw (root : List Str) (s : Sync) (f : Frame) (ms : List Mut) (p : ShellPart) (w : World) :
+    (exec root (.bgw s f) ms p w).shell = p ∧ (exec root (.bgw s f) ms p w).status = 0 ∧
+    (exec root (.bgw s f) ms p w).aborted = false := by
+  simp [exec, execWith, prepare, leak_id, waitResult]
 
 /-! ### pipelines whose last command is a mutator -/
 
@@ -201,20 +209,20 @@ theorem sharing_leaks (sh : Comp → Bool) (h : ∃ c, sh c = true) :
   obtain ⟨c, hc⟩ := h
   cases c with
   | env => exact ⟨[.assign ['v'] ['x']], bareShell [], ⟨0, 0⟩, by
-      simp [execWith, childRun, runMuts, runStep, stepShell, cloneWith, leakWith, prepare, bareShell, hc, aget, aset]⟩
+      simp [execWith, childRun, runMuts, runStep, isReturn, stepShell, cloneWith, leakWith, prepare, bareShell, hc, aget, aset]⟩
   | funcs => exact ⟨[.defun ['f'] ['x']], bareShell [], ⟨0, 0⟩, by
-      simp [execWith, childRun, runMuts, runStep, stepShell, cloneWith, leakWith, prepare, bareShell, hc, aset]⟩
+      simp [execWith, childRun, runMuts, runStep, isReturn, stepShell, cloneWith, leakWith, prepare, bareShell, hc, aset]⟩
   | options => exact ⟨[.seto ['o'] true], bareShell [], ⟨0, 0⟩, by
-      simp [execWith, childRun, runMuts, runStep, stepShell, cloneWith, leakWith, prepare, bareShell, hc, aset]⟩
+      simp [execWith, childRun, runMuts, runStep, isReturn, stepShell, cloneWith, leakWith, prepare, bareShell, hc, aset]⟩
   | aliases => exact ⟨[.alias ['a'] ['x']], bareShell [], ⟨0, 0⟩, by
-      simp [execWith, childRun, runMuts, runStep, stepShell, cloneWith, leakWith, prepare, bareShell, hc, aset]⟩
+      simp [execWith, childRun, runMuts, runStep, isReturn, stepShell, cloneWith, leakWith, prepare, bareShell, hc, aset]⟩
   | traps => exact ⟨[.trap ['I'] ['x']], bareShell [], ⟨0, 0⟩, by
-      simp [execWith, childRun, runMuts, runStep, stepShell, cloneWith, leakWith, prepare, bareShell, hc, aset]⟩
+      simp [execWith, childRun, runMuts, runStep, isReturn, stepShell, cloneWith, leakWith, prepare, bareShell, hc, aset]⟩
   | workingDir => exact ⟨[.cd ['.', '.']], bareShell [['a']], ⟨0, 0⟩, by
-      simp [execWith, childRun, runMuts, runStep, stepShell, cloneWith, leakWith, prepare, bareShell, hc, cdTarget, dirExists]⟩
+      simp [execWith, childRun, runMuts, runStep, isReturn, stepShell, cloneWith, leakWith, prepare, bareShell, hc, cdTarget, dirExists]⟩
   | args => exact ⟨[.setargs [['x']]], bareShell [], ⟨0, 0⟩, by
-      simp [execWith, childRun, runMuts, runStep, stepShell, cloneWith, leakWith, prepare, bareShell, hc]⟩
+      simp [execWith, childRun, runMuts, runStep, isReturn, stepShell, cloneWith, leakWith, prepare, bareShell, hc]⟩
   | openFiles => exact ⟨[.fdopen 7], bareShell [], ⟨0, 0⟩, by
-      simp [execWith, childRun, runMuts, runStep, stepShell, cloneWith, leakWith, prepare, bareShell, hc, insertSorted]⟩
+      simp [execWith, childRun, runMuts, runStep, isReturn, stepShell, cloneWith, leakWith, prepare, bareShell, hc, insertSorted]⟩
 
 end BrushVerif.Subshell
